@@ -29,7 +29,7 @@ ASSUMPTIONS = [
 COMPONENTS = {"real": ["TradingEnvXY (data preparation, _make_timesteps, _make_transmitter)", "State", "Transmitter", "TradingEnv", "sklearn transformers", "pandas_market_calendars"],
               "harness": ["table generator with data faults"], "stub": []}
 PROBE_FLOORS = {"long_window_mid_data_start": 5, "holiday_inside_range": 18, "x_nan_cells": 13, "x_missing_rows": 11, "window_gt_1": 24, "stride_used": 12,
-                "y_nan_cells": 13, "rate_given": 16, "folds_used": 10, "x_starts_late": 9}
+                "y_nan_cells": 13, "rate_given": 16, "folds_used": 10, "x_starts_late": 9, "rate_zero_or_negative": 10}
 HOL = {}
 
 
@@ -174,6 +174,8 @@ def execute(scenario):
         probe("stride_used")
     if tb.get("rate") is not None:
         probe("rate_given")
+        if any(x <= 0 for x in tb["rate"]):
+            probe("rate_zero_or_negative")
     if kw.get("folds"):
         probe("folds_used")
     if tb.get("freq") == "H6":
